@@ -53,6 +53,18 @@ theorem C31_wellformed (c : PCfg) (hc : c.Good) (args : List Bytes) (rest : Byte
     (parse c (encodeArray args ++ rest)).out = .ok (args.map some) rest :=
   parse_encodeArray c hc args rest hn hlen
 
+/-- **Pipelines.**  Any number of commands sent back to back parse into exactly those commands, in
+order, and the stream ends cleanly.  The parse is a function of the bytes alone: the model has no
+notion of the pieces in which a connection delivers them, so nothing about segmentation or
+buffering can influence the result (for the real code that independence is what the chunked
+correspondence runs and the fact `resp.bulkCopy` check). -/
+theorem C31_pipeline (c : PCfg) (hc : c.Good) (cmds : List (List Bytes))
+    (h : ∀ a ∈ cmds, a.length ≤ int64Max ∧ ∀ x ∈ a, x.length ≤ int64Max) :
+    (parseConn c (encodeStream cmds)).frames = cmds.map (fun a => a.map some) ∧
+    (parseConn c (encodeStream cmds)).fin = .err .eof := by
+  have := encodeStream_length cmds
+  exact parseAll_encodeStream c hc cmds _ (by omega) h
+
 /-- **Inline commands.**  Words free of white space (and of non-ASCII bytes), separated by single
 spaces and terminated by CR LF, parse into exactly those words. -/
 theorem C31_inline (c : PCfg) (_hc : c.Good) (ws : List Bytes) (rest : Bytes)
